@@ -477,6 +477,16 @@ func clampedCounter(pk *packagesPackage, fd *ast.FuncDecl, stack []ast.Node, ix 
 		}
 		return false, ""
 	}
+	// a parameter comes with whatever the callers computed: no clamp of this function covers it
+	if fd.Type.Params != nil {
+		for _, fl := range fd.Type.Params.List {
+			for _, nm := range fl.Names {
+				if pk.TypesInfo.ObjectOf(nm) == obj {
+					return false, ""
+				}
+			}
+		}
+	}
 	// (2)+(3)
 	okAll := true
 	var visitBlock func(list []ast.Stmt)
